@@ -173,7 +173,8 @@ func c02Case(c *Ctx) *Result {
 	}
 	c.Out.Start("C02", fmt.Sprintf("C02-udp/%d/%d", c.Seed, c.Idx), c.Seed, params)
 	res := &Result{Params: params}
-	cm, err := env.NewClient(0, "")
+	ui := r.Intn(2)
+	cm, err := env.NewClient(ui, "")
 	if err != nil {
 		res.Verdict, res.Detail = Inconclusive, "client: "+err.Error()
 		return res
@@ -191,8 +192,8 @@ func c02Case(c *Ctx) *Result {
 		if r0.MaxStall > stall {
 			stall = r0.MaxStall
 		}
-		if r0.ServerUser != "" && r0.ServerUser != "alice" {
-			res.Also = append(res.Also, SideFinding{"C07", "wrong-user", fmt.Sprintf("session %d attributed to %q", i, r0.ServerUser)})
+		if r0.Accepted && r0.ServerUser != env.Cfg.Users[ui].Name {
+			res.Also = append(res.Also, SideFinding{"C07", "wrong-user", fmt.Sprintf("session %d of user %q attributed to %q", i, env.Cfg.Users[ui].Name, r0.ServerUser)})
 		}
 	}
 	res.Obs["bytes_compared"] = float64(total)
